@@ -2,6 +2,7 @@ package main
 
 import (
 	"fmt"
+	"net/url"
 	"runtime"
 	"sync"
 	"sync/atomic"
@@ -20,7 +21,8 @@ type ConcCfg struct {
 	Snapshotters int    `json:"snapshotters"`
 	Resetters    int    `json:"resetters"`
 	APIResetters int    `json:"api_resetters"`
-	Stampede     int    `json:"stampede"` // fresh names that ALL collectors record for at the same moment (first use races)
+	Alphabet     int    `json:"alphabet,omitempty"` // index into nameAlphabets for the users known from the start
+	Stampede     int    `json:"stampede"`           // fresh names that ALL collectors record for at the same moment (first use races)
 	Rounds       int    `json:"rounds,omitempty"`
 }
 
@@ -28,7 +30,8 @@ func genConc(r *common.Rng, idx uint64, o *common.Options) ConcCfg {
 	c := ConcCfg{Idx: idx, Seed: r.U64(),
 		Collectors:   r.Range(1, 8),
 		PerCollector: r.Range(20, 400),
-		Users:        r.Range(0, 5),
+		Users:        r.Range(0, 8),
+		Alphabet:     r.Intn(len(nameAlphabets)),
 		LateUsers:    r.Range(0, 5),
 		Snapshotters: r.Range(0, 2),
 		Resetters:    r.Range(0, 3),
@@ -63,7 +66,10 @@ type concOutcome struct {
 
 func concUsers(c ConcCfg) (early, late []string) {
 	for i := 0; i < c.Users; i++ {
-		early = append(early, namePool[i%len(namePool)])
+		al := nameAlphabets[c.Alphabet%len(nameAlphabets)]
+		if i < len(al) {
+			early = append(early, al[i])
+		}
 	}
 	for i := 0; i < c.LateUsers; i++ {
 		late = append(late, fmt.Sprintf("late%d", i))
@@ -222,7 +228,7 @@ func runConc(c ConcCfg) (out concOutcome, err error) {
 	out.apiStats = v
 	out.apiUsers = map[string]fig{}
 	for _, u := range append(append([]string{}, all...), rush...) {
-		status, body := srv.get("/servers/" + serverName + "/users/" + u)
+		status, body := srv.get("/servers/" + serverName + "/users/" + url.PathEscape(u))
 		_, name, f, e := renderUser(status, body)
 		if e != nil || status != 200 || name != u {
 			out.apiUserErr = fmt.Sprintf("GET users/%s: status %d body %q: %v", u, status, body, e)
@@ -437,7 +443,7 @@ func evalConc(cfgs []ConcCfg, o *common.Options, rep *common.Report) error {
 		}
 	}
 	if o.Driver != "" && len(lines) > 0 {
-		model, err := common.RunDriverOnce(o.Driver, lines)
+		model, err := runDriver(o.Driver, lines)
 		if err != nil {
 			return err
 		}
